@@ -66,7 +66,7 @@ func (b *Block) Key() string {
 
 func (b *Block) QName() string { return b.PkgName + "." + b.Key() }
 
-var clauseKW = []string{"requires", "ensures", "loop", "split", "opaque", "prop", "decreases", "modifies", "assume", "inline", "nooverlay", "unsafe-ok", "havoc", "using", "trusted", "known", "reveal", "forall", "use", "inline", "witness", "return"}
+var clauseKW = []string{"requires", "ensures", "loop", "split", "opaque", "prop", "decreases", "modifies", "assume", "inline", "nooverlay", "unsafe-ok", "havoc", "using", "trusted", "known", "reveal", "forall", "use", "inline", "witness", "return", "uninterpreted"}
 var blockKW = []string{"opaque spec func", "abstract func", "spec func", "lemma", "axiom", "assume func", "func", "assume-dep", "iface", "ghost"}
 
 func startsWithKW(s string, kws []string) string {
@@ -273,7 +273,12 @@ func ParseContractFile(path, pkgPath string) ([]*Block, error) {
 				c.ID = strings.TrimSpace(txt[:par])
 				c.ArgText = txt[par:]
 				c.Quantified = pre != ""
-				g, err := RewriteSpecExpr(pre + "lemma_" + c.ID + "__holds" + txt[par:])
+				holds := "lemma_" + c.ID + "__holds"
+				if dot := strings.Index(c.ID, "."); dot > 0 {
+					// lemma of another package: its exported alias
+					holds = c.ID[:dot] + ".Lemma_" + c.ID[dot+1:] + "__holds"
+				}
+				g, err := RewriteSpecExpr(pre + holds + txt[par:])
 				if err != nil {
 					return nil, fmt.Errorf("%s:%d: %v", b.File, c.Line, err)
 				}
@@ -858,6 +863,7 @@ func GenOverlay(pkgName string, blocks []*Block, extraImports []string) string {
 					pre = []string{"true"}
 				}
 				fmt.Fprintf(&sb, "\nfunc lemma_%s__holds(%s) bool {\n\treturn !(%s) || (%s)\n}\n", b.Name, params, strings.Join(pre, " && "), strings.Join(post, " && "))
+				fmt.Fprintf(&sb, "\nfunc Lemma_%s__holds(%s) bool {\n\treturn lemma_%s__holds(%s)\n}\n", b.Name, params, b.Name, names)
 				fmt.Fprintf(&sb, "\nfunc lemma_%s__reqall(%s) bool {\n\treturn %s\n}\n", b.Name, params, strings.Join(pre, " && "))
 				for _, c := range b.Clauses {
 					if c.Kind == "decreases" {
@@ -895,4 +901,12 @@ func sortedKeys[V any](m map[string]V) []string {
 	}
 	sort.Strings(ks)
 	return ks
+}
+
+// lemmaKey: "pkg.name" of a used lemma (the ID may already carry a package qualifier).
+func lemmaKey(pkgName, id string) string {
+	if strings.Contains(id, ".") {
+		return id
+	}
+	return pkgName + "." + id
 }
